@@ -123,7 +123,7 @@ class OpAdd(Op):
         if isinstance(parent, MutableSequence):
             if obj is UNDEFINED:
                 # An index equal to the length of the array appends, like "-".
-                if target == "-" or target == len(parent):
+                if target == "-" or str(target) == str(len(parent)):
                     parent.append(value)
                 else:
                     raise JSONPatchError("index out of range")
@@ -172,7 +172,7 @@ class OpAddNe(OpAdd):
         if isinstance(parent, MutableSequence):
             if obj is UNDEFINED:
                 # Arrays are handled exactly like _add_.
-                if target == "-" or target == len(parent):
+                if target == "-" or str(target) == str(len(parent)):
                     parent.append(value)
                 else:
                     raise JSONPatchError("index out of range")
